@@ -507,6 +507,16 @@ func Arith(op Op, a, b *Term) *Term {
 		if isZero(b) {
 			return a
 		}
+		// operands whose possibly-set bits are disjoint: | and ^ are addition (no carries)
+		if !s.Signed || s.W == 64 {
+			ma, mb := maybeBits(a, 0), maybeBits(b, 0)
+			if ma != nil && mb != nil && new(big.Int).And(ma, mb).Sign() == 0 {
+				top := new(big.Int).Or(ma, mb)
+				if !s.Signed || top.Bit(s.W-1) == 0 {
+					return TS.mk(OAddNW, s, "", nil, a, b)
+				}
+			}
+		}
 	case OBitAndNot:
 		if isZero(b) {
 			return a
@@ -1125,4 +1135,74 @@ func FreeVars(ts ...*Term) []*Term {
 	}
 	sort.Slice(out, func(i, j int) bool { return out[i].Name < out[j].Name })
 	return out
+}
+
+// maybeBits: mask of the bits that may be set in t (as an unsigned value); nil = unknown.
+func maybeBits(t *Term, depth int) *big.Int {
+	if depth > 12 || t.Sort.Kind != SInt {
+		return nil
+	}
+	w := t.Sort.W
+	all := new(big.Int).Sub(pow2(w), big.NewInt(1))
+	switch t.Op {
+	case OConst:
+		return unsignedOf(t)
+	case OConv:
+		from := t.Args[0].Sort
+		if from.Signed {
+			return nil
+		}
+		m := maybeBits(t.Args[0], depth+1)
+		if m == nil {
+			m = new(big.Int).Sub(pow2(from.W), big.NewInt(1))
+		}
+		return new(big.Int).And(m, all)
+	case OShl:
+		if t.Args[1].IsConst() && t.Args[1].Val.IsInt64() && t.Args[1].Val.Int64() >= 0 && t.Args[1].Val.Int64() < int64(w) {
+			m := maybeBits(t.Args[0], depth+1)
+			if m == nil {
+				m = all
+			}
+			return new(big.Int).And(new(big.Int).Lsh(m, uint(t.Args[1].Val.Int64())), all)
+		}
+	case OShr:
+		if !t.Sort.Signed && t.Args[1].IsConst() && t.Args[1].Val.IsInt64() && t.Args[1].Val.Int64() >= 0 {
+			m := maybeBits(t.Args[0], depth+1)
+			if m == nil {
+				m = all
+			}
+			return new(big.Int).Rsh(m, uint(t.Args[1].Val.Int64()))
+		}
+	case OBitAnd:
+		ma, mb := maybeBits(t.Args[0], depth+1), maybeBits(t.Args[1], depth+1)
+		if ma == nil {
+			return mb
+		}
+		if mb == nil {
+			return ma
+		}
+		return new(big.Int).And(ma, mb)
+	case OBitOr, OBitXor:
+		ma, mb := maybeBits(t.Args[0], depth+1), maybeBits(t.Args[1], depth+1)
+		if ma == nil || mb == nil {
+			return nil
+		}
+		return new(big.Int).Or(ma, mb)
+	case OAddNW:
+		// produced by the disjoint-bits rewrite only when operands are disjoint
+		ma, mb := maybeBits(t.Args[0], depth+1), maybeBits(t.Args[1], depth+1)
+		if ma != nil && mb != nil && new(big.Int).And(ma, mb).Sign() == 0 {
+			return new(big.Int).Or(ma, mb)
+		}
+	case OIte:
+		ma, mb := maybeBits(t.Args[1], depth+1), maybeBits(t.Args[2], depth+1)
+		if ma == nil || mb == nil {
+			return nil
+		}
+		return new(big.Int).Or(ma, mb)
+	}
+	if !t.Sort.Signed && t.Sort.W < 64 {
+		return all
+	}
+	return nil
 }
